@@ -180,7 +180,11 @@ class SimRemoteFS(MemoryFileSystem):
         data = self.fs.cat_file(from_info)
         self.stats["get"] += 1
         with open(to_info, "wb") as f:  # patched open: a local mutation
-            f.write(data)
+            half = len(data) // 2
+            f.write(data[:half])
+            # the connection may drop in the middle of a download: the local file then holds a prefix
+            self._pt("r_get_mid", from_info)
+            f.write(data[half:])
 
     def open(self, path, mode="r", **kwargs):
         if "r" in mode:
